@@ -44,7 +44,7 @@ def check(run):
             if c is not None and 'backward' in c.methods:
                 entries.append(c.methods['backward'])
     resolve.check_cone(run, repo, entries, 'circuit backward')
-    run.floor('R11.gate', 10)
+    run.floor('R11.gate', 64)
     run.floor('R10.order', 3)
     run.floor('R10.fold', 6)
     run.floor('R11.apply', 8)
